@@ -5,6 +5,7 @@
 # See file LICENSE for details.
 ############################################################################
 
+import csv
 import os
 import logging
 from collections import defaultdict
@@ -49,7 +50,8 @@ class EnumStats:
 
 def transform_counts(path_to_csv, label, column_name='count', full=False):
     # feature ids are strings: "NA", "nan", "null" etc. are legal gene/transcript ids, not missing values
-    df = pd.read_csv(path_to_csv, sep='\t', dtype={'#feature_id': str}, keep_default_na=False, na_values=[''])
+    df = pd.read_csv(path_to_csv, sep='\t', dtype={'#feature_id': str}, keep_default_na=False, na_values=[''],
+                     quoting=csv.QUOTE_NONE)
     df_features = df.copy() if full else df[:-3].copy()
     df_features.rename(columns={column_name: label}, inplace=True)
     return df_features
@@ -63,7 +65,7 @@ def combine_table(input_data, output, get_file_name, output_file_name, column_na
                                   transform_counts(get_file_name(sample), sample.prefix, column_name, full),
                                   on='#feature_id', how='outer')
 
-    combined_table.to_csv(os.path.join(output, output_file_name), sep='\t', index=False)
+    combined_table.to_csv(os.path.join(output, output_file_name), sep='\t', index=False, quoting=csv.QUOTE_NONE)
 
 
 def combine_counts(input_data, output):
